@@ -26,6 +26,18 @@ def run(ctx, replay=None):
         ctx.report('obligation-with-witness', {'function': fn, 'observed': 'lock-depth-differs-at-exit'},
                    'the lock-structure checker rejects %s: some path returns with a different lock depth (or the translator cannot read it)' % fn,
                    {'function': fn, 'how': 'coq/Gen/LockAst.v f_%s; evaluate lock_balanced on it; inspect early returns between lock and unlock in the source' % fn})
+    # run-time witness search: lock holder outlasts the waiter's retry limit, then everybody must get through
+    exe, msg = ctx.cc('h_conc', CORE_SRCS, ['h_conc.c'])
+    if exe is None:
+        ctx.broken.append(('obligation:build', msg))
+    else:
+        rc, o, er = ctx.run([exe, 'contend'], timeout=60)
+        ctx.cov['evaluations'] += 1
+        line = (o.decode('latin1').strip().splitlines() or ['(no output, exit %s)' % rc])[-1]
+        ctx.cov['contention_scenario'] = line
+        if rc != 0:
+            ctx.report('schedule', {'scenario': 'contend', 'observed': 'lock-never-released'}, 'contention scenario: ' + line[:200],
+                       {'cmd': 'h_conc contend', 'output': (o + er).decode('latin1')[-1500:]})
     ctx.sample({'functions_checked': names[:12]})
     ctx.cov['functions'] = len(names)
     ctx.cov['rejected'] = rejected
